@@ -1,8 +1,67 @@
-(* C03 placeholder; replaced below *)
+(* C03: selection never returns an ineligible target.  Property theorems only.
+   gsub = (name, gslb weight, backends); a backend is eligible (wb_elig) iff Avail() && weight > 0;
+   balance p subs retry h n = BalanceGslb.Balance with p = (mode, retryMax, crossRetry), req.RetryTime = retry,
+   murmur3 value h of the hash key and n = the clock-seeded random number of randomSelectExclude; the result is
+   the observation (code 0 = a backend is returned, 1..6 = the error, SubclusterName, backend id, RetryTime,
+   IsCrossCluster, req.ErrCode) and the new balancer state.  mode ranges over WRR smooth, WLC smooth, sticky. *)
 From Coq Require Import List ZArith Bool.
-From Bfe Require Import lib.Val model.Gslb run.RunC03.
+From Bfe Require Import lib.Val model.Swrr model.Wlc model.Sticky model.Gslb proofs.WlcProofs proofs.GslbProofs run.RunC03.
 Import ListNotations.
 Open Scope Z_scope.
-Example C03_placeholder : kf_C03 (VZ 0) = 0.
-Proof. exact eq_refl. Qed.
-Print Assumptions C03_placeholder.
+
+(* Whenever Balance returns a backend (for every mode, retry count, hash and random choice): it belongs to the
+   reported sub-cluster, is available and has positive weight; the sub-cluster is not GSLB_BLACKHOLE; if it is the
+   first choice (no cross-cluster retry) its gslb weight is positive and retry <= retryMax; if it was chosen for a
+   cross-cluster retry its weight is non-negative and crossRetry > 0. *)
+Theorem C03_backend_eligible : forall p subs retry h n,
+  NoDup (map s_name subs) ->
+  let o := fst (balance p subs retry h n) in
+  o_code o = 0 ->
+  exists s, In s subs /\ s_name s = o_sub o /\ is_bh (s_name s) = false /\
+            (exists b, In b (s_bs s) /\ wb_elig b = true /\ wb_id b = o_bid o) /\
+            (o_cross o = 0 -> 0 < s_w s /\ retry <= snd (fst p)) /\
+            (o_cross o = 1 -> 0 <= s_w s /\ 0 < snd p).
+Proof. exact balance_returns_eligible. Qed.
+Print Assumptions C03_backend_eligible.
+
+(* Complete characterisation of one call (spec_balance, Gslb.v, is the executable predicate the harness evaluates
+   on the implementation's observations): RetryTooMany iff retry > retryMax+crossRetry; else NoSubCluster iff no
+   positive gslb weight; else with fc = owner of the hash residue among the positive sub-clusters: Blackhole iff fc is
+   GSLB_BLACKHOLE; else a backend of fc iff retry <= retryMax and fc has an eligible backend; else NoBackend iff
+   crossRetry <= 0; else NoSubClusterCross iff no other non-negative non-blackhole sub-cluster exists; else for the
+   sub-cluster x chosen among those: a backend of x iff x has an eligible backend, otherwise CrossRetryBalance.
+   "An error exactly when no eligible target exists" is this statement, phase by phase.  The credit-free view of
+   the balancer (names, weights, backend ids/weights/availability) is not changed by the call. *)
+Theorem C03_error_iff_none : forall p subs retry h n,
+  NoDup (map s_name subs) ->
+  spec_balance p (pj subs) retry h (fst (balance p subs retry h n)) = true /\
+  pj (snd (balance p subs retry h n)) = pj subs.
+Proof. exact balance_spec. Qed.
+Print Assumptions C03_error_iff_none.
+
+(* The per-algorithm facts used above: SubCluster.balance returns an eligible backend of its list, and fails
+   exactly when the list has none (empty list included), for smooth WRR, smooth WLC and sticky. *)
+Theorem C03_sub_balance_eligible : forall m bs h p bs',
+  sub_balance m bs h = Some (p, bs') -> elig_in (map pj_b bs) p = true /\ map pj_b bs' = map pj_b bs.
+Proof. exact sub_balance_some. Qed.
+Print Assumptions C03_sub_balance_eligible.
+Theorem C03_sub_balance_error_iff : forall m bs h,
+  sub_balance m bs h = None <-> has_elig (map pj_b bs) = false.
+Proof. exact sub_balance_none. Qed.
+Print Assumptions C03_sub_balance_error_iff.
+
+(* The model satisfies the executable property on every well-formed input (operation histories of Balance,
+   SetAvail and connection-count changes; kf_C03 = 0 everywhere). *)
+Theorem C03_prop_of_model : forall i p conf ops,
+  dec_in i = Some (p, conf, ops) -> NoDup (map (fun s : key * Z * list (Z * Z) => fst (fst s)) conf) ->
+  prop_C03 i (run_C03 i) = true.
+Proof. exact prop_of_model_C03. Qed.
+Print Assumptions C03_prop_of_model.
+
+(* Non-vacuity: sub-cluster "a" (weight 1) has only a weight-0 backend, "b" (weight 0) has an eligible one:
+   the first choice a fails in-cluster, the cross retry returns backend 7 of b; with crossRetry = 0: NoBackend. *)
+Example C03_example :
+  let subs := g_init [([97], 1, [(3, 0)]); ([98], 0, [(7, 2)])] in
+  fst (balance (MWrr, 2, 1) subs 0 12345 0) = mkObs 0 [98] 7 2 1 0 /\
+  fst (balance (MWrr, 2, 0) subs 0 12345 0) = mkObs 3 [97] (-1) 2 0 3.
+Proof. exact (conj eq_refl eq_refl). Qed.
